@@ -217,6 +217,9 @@ def _programs(inst):
 
 def replay(spec):
     inst = spec["inst"]
+    if inst.get("part") == "module":
+        r = _module_batch(inst)
+        return dict(violations=[v["what"] for v in r["violations"]]) if r["violations"] else None
     if inst.get("part") == "program":
         _, b = _check_program(spec["op"], _tup(spec["L"]), _tup(spec["R"]))
         return b
@@ -263,7 +266,58 @@ def replay(spec):
     return None
 
 
+def _module_batch(inst):
+    """context independence: all pairs of one operator that the table accepts (and the back end can lower) as functions of ONE
+    module, in the given order; the static type of each function's result must be the table's, whatever else the module contains"""
+    from nsl import Compiler, LinearIR
+    res = dict(paths=0, queries=0, unsat=0, sat=0, violations=[], errors=[], nontrivial=True)
+    findings = core.load_findings(PID)
+    members = []
+    for L in O3.SPELLABLE:
+        for R in O3.SPELLABLE:
+            acc, rt, lo, ro = O3.binary_spec(inst["op"], L, R)
+            if acc is None or not z3.is_true(z3.simplify(acc)):
+                continue
+            if any(f.get("kind") == "symptom" and inst["op"] in f.get("trigger", {}).get("ops", []) and [L[0], R[0]] in f.get("trigger", {}).get("kinds", []) for f in findings):
+                continue        # accepted by typing but not lowerable today (known findings)
+            members.append((L, R, _conc(rt)))
+    if inst.get("reverse"):
+        members = members[::-1]
+    src = "\n".join(f"export function f{k}({O3.spell(L)} a, {O3.spell(R)} b) -> {O3.spell(T)} {{ return a {inst['op']} b; }}" for k, (L, R, T) in enumerate(members))
+    res["paths"] = len(members)
+    out = io.StringIO()
+    try:
+        with contextlib.redirect_stdout(out), contextlib.redirect_stderr(out):
+            r = Compiler.Compiler().Compile(src)
+    except Exception as e:  # noqa: BLE001
+        r, err = None, f"{type(e).__name__}: {str(e)[:120]}"
+    else:
+        err = "Compile returned None: " + out.getvalue().strip()[-120:]
+    spec = dict(harness="C09", inst=dict(part="module", op=inst["op"], reverse=bool(inst.get("reverse"))))
+    if r is None:
+        res["violations"].append(dict(what=f"{len(members)} functions that are accepted one by one are rejected as one module (operator {inst['op']}): {err}", replay=spec))
+        return res
+    bad = []
+    for k, (L, R, T) in enumerate(members):
+        ret = None
+        for ins in r.IRModule.Functions[f"f{k}"].Instructions:
+            if isinstance(ins, LinearIR.ReturnInstruction) and ins.Value is not None:
+                ret = _ir_type_desc(ins.Value.Type)
+        if ret != T:
+            bad.append((O3.spell(L), O3.spell(R), T, ret))
+    if bad:
+        res["violations"].append(dict(what=f"operator typing '{inst['op']}' depends on the other functions of the module ({len(bad)} of {len(members)} functions differ), e.g. "
+                                           f"{bad[0][0]} {inst['op']} {bad[0][1]}: expected {bad[0][2]}, got {bad[0][3]}", replay=spec))
+    return res
+
+
 def run_instance(inst):
+    if inst["part"] == "module":
+        r = _module_batch(inst)
+        r["sample"] = dict(inst)
+        r["key"] = repr(sorted((k, str(v)) for k, v in inst.items()))
+        r["funcs"] = ["nsl.Compiler.Compiler.Compile", "nsl.passes.ComputeTypes.ComputeTypeVisitor._ProcessExpression", "nsl.passes.AddImplicitCasts"]
+        return r
     r = _typing(inst) if inst["part"] == "typing" else _programs(inst)
     r["sample"] = dict(inst)
     r["key"] = repr(sorted((k, str(v)) for k, v in inst.items()))
@@ -280,7 +334,7 @@ def run(tier, seed, only=None):
                           "matrix shapes in 1..4; B: one instance per operator covering all 14 x 14 spellable type pairs (concrete). Non-trivial = "
                           "a query over the symbolic sizes was discharged / programs were compiled")
     chk.bounds = {"A": "13 operators x {scalar,vector,matrix}^2 x {float,int,uint}^2 = 1053 instances, sizes 1..4 symbolic",
-                  "B": "13 x 14 x 14 programs (3 scalar, 9 vector, 2 matrix types)",
+                  "B": "13 x 14 x 14 programs (3 scalar, 9 vector, 2 matrix types); per operator all accepted pairs again as functions of one module, in both orders (typing must not depend on the rest of the module)",
                   "outside": "matrix comparison (undefined by the statement); types that cannot be built from PrimitiveType; sizes > 4; "
                              "a matrix result with one column is identified with the vector of its rows"}
     chk.assumptions = ["repr() of a symbolic size forks over its feasible values (PrimitiveType.__eq__ compares reprs)",
@@ -297,6 +351,7 @@ def run(tier, seed, only=None):
                         insts.append(dict(part="typing", op=o, lk=lk, rk=rk, lc=lc, rc=rc,
                                           twin=(lk == rk == "vector" and lc == "float" and rc == "int" and o in ("+", "<"))))
     insts += [dict(part="programs", op=o) for o in OPSTR]
+    insts += [dict(part="module", op=o, reverse=rv) for o in OPSTR for rv in (False, True)]
     insts = [i for i in insts if only in (None, i["part"])]
     # matrix x matrix instances have the most paths: schedule them first
     insts.sort(key=lambda i: -((i.get("lk") == "matrix") + (i.get("rk") == "matrix")))
